@@ -271,7 +271,7 @@ func getSignatureAlgorithmByHash(hash Hash, oid asn1.ObjectIdentifier) Signature
 	switch hash {
 	case SM3:
 		switch {
-		case oid.Equal(oidSM3withSM2):
+		case oid.Equal(oidSM3withSM2), oid.Equal(oidDSASM2):
 			return SM2WithSM3
 		}
 	case SHA256:
